@@ -7,5 +7,7 @@ export CARGO_NET_OFFLINE=true
 export RUSTFLAGS="--cfg bigtools_verif"
 export PYO3_PYTHON="$(command -v python3-vt)"
 mkdir -p work/py
-cargo build --offline --manifest-path /repo/Cargo.toml -p pybigtools --no-default-features --target-dir "$VERIF_DIR/target/repo" 2> work/build_py.log || { tail -30 work/build_py.log; echo "build failed (pybigtools)"; exit 2; }
-cp "$VERIF_DIR/target/repo/debug/libpybigtools.so" work/py/pybigtools.so
+REPO="${VERIF_REPO:-/repo}"
+TD="$VERIF_DIR/target/repo"; [ "$REPO" = "/repo" ] || TD="$VERIF_DIR/target_alt/repo"
+cargo build --offline --manifest-path "$REPO/Cargo.toml" -p pybigtools --no-default-features --target-dir "$TD" 2> work/build_py.log || { tail -30 work/build_py.log; echo "build failed (pybigtools)"; exit 2; }
+cp "$TD/debug/libpybigtools.so" work/py/pybigtools.so
